@@ -16,6 +16,7 @@ EXPLANATION = (
     'only for the two guard reasons (no memo across roots), and no diagnostic is gated by membership in state that outlives one element '
     '(first-seen de-duplication across files). Decides these clauses, not byte-identity of two runs.')
 THOROUGH_RERUN = ['release']     # the same rules over the release build (no debug assertions): verified clean on the pinned tree
+WITNESSES = ['AstTablesArePrivate']     # thorough tier: engines/witness (T12)
 ASSUMPTIONS = ['rustc type checking and MIR construction', 'read_dir order is stable for an unchanged directory (OS)', 'HashMap/HashSet membership operations are deterministic']
 HASH_TYPES = ('std::collections::hash::map::HashMap', 'std::collections::hash::set::HashSet', 'hashbrown::')
 ITERATING = ('iter', 'iter_mut', 'into_iter', 'keys', 'values', 'values_mut', 'into_keys', 'into_values', 'drain', 'retain', 'extract_if', 'drain_filter', 'fmt',
